@@ -95,8 +95,8 @@ impl ConnectionH2 {
     pub fn reset_stream<L>(&mut self, wire_stream_id: StreamId, stream_id: GlobalStreamId, context: &mut Context<L>, endpoint: Endpoint, error: H2Error) -> (r: MuxResult)
         ensures final(self).flow_control == old(self).flow_control, final(self).streams == old(self).streams, final(context).streams@.len() == old(context).streams@.len() { unimplemented!() }
     #[verifier::external_body]
-    pub fn remove_dead_stream(&mut self, stream_id: StreamId, global_stream_id: GlobalStreamId)
-        ensures final(self).flow_control == old(self).flow_control { unimplemented!() }
+    pub fn remove_dead_stream<L>(&mut self, stream_id: StreamId, global_stream_id: GlobalStreamId, context: &mut Context<L>)
+        ensures final(self).flow_control == old(self).flow_control, final(context).streams == old(context).streams { unimplemented!() }
     #[verifier::external_body]
     pub fn attribute_bytes_to_overhead(&mut self)
         ensures final(self).flow_control == old(self).flow_control, final(self).streams == old(self).streams, final(self).readiness == old(self).readiness, final(self).flood_detector == old(self).flood_detector, final(self).position == old(self).position { unimplemented!() }
